@@ -1,6 +1,7 @@
 (* C09: code-shaped model of polliwog/polyline/_polyline_object.py (value operations) and _edges.py.
-   Each definition follows the NumPy expression of the source; with_insertions models the code WITH the
-   proposed fix fixes/C09-insertion-index-maps.diff (stable argsort + searchsorted index maps).
+   Each definition follows the NumPy expression of the source; with_insertions is the code as repaired by /repo
+   commit 9e3d823 (fixes/C09-insertion-index-maps.diff: stable argsort + searchsorted index maps); the constructor
+   stores a float64 copy (commit 9b9f8e2 (fixes/C09-integer-vertices.diff)), so the value held is the list of the given points as reals.
    Definitions only; refinement to M_polyline_spec.v is proved in proofs/P_polyline_ops.v. *)
 From Coq Require Import ZArith List Bool Arith.
 From PW Require Import Num Vec NpList Result.
